@@ -1,3 +1,4 @@
+mod arith;
 mod drive;
 mod pb;
 mod proj;
@@ -85,6 +86,20 @@ fn main() {
                 }
             }
             eprintln!("lines={}", sink.n);
+        }
+        Some("arith-small") => {
+            let k: u64 = args[2].parse().unwrap();
+            let f = std::fs::File::create(&args[3]).unwrap();
+            let mut w = std::io::BufWriter::new(f);
+            let n = arith::small(k, &mut w);
+            println!("{}", json!({"evaluations": n}));
+        }
+        Some("arith-big") => {
+            let seed: u64 = args[2].parse().unwrap();
+            let count: usize = args[3].parse().unwrap();
+            let v = arith::big(seed, count);
+            std::fs::write(&args[4], serde_json::to_string(&v).unwrap()).unwrap();
+            println!("{}", json!({"vectors": v.len()}));
         }
         Some("tree") => {
             // tree <tlc-output-with-EDGE-lines> <out.ndjson> <sample_mod> <seed>
